@@ -337,6 +337,24 @@ func runC10(tier string) int {
 			}(i, p, label)
 		}
 		jw.Wait()
+		// hand-written descriptor witnesses: annotations on type uses
+		var bad []string
+		wit := map[string]interface{}{}
+		for wi, w := range jsonWitnesses() {
+			kind, text, files := runJSONWitness(bin, w, filepath.Join(scratch, fmt.Sprintf("c10-jsonwit%d", wi)))
+			run.Add("json_descriptor_witness_programs", 1)
+			run.Eval(1)
+			run.Distinct("json-witness:" + w.Name)
+			if kind == "timeout" {
+				run.Inconclusive("descriptor witness " + w.Name + ": " + text)
+			} else if kind != "" {
+				bad = append(bad, w.Name+": "+text)
+				wit[w.Name] = map[string]interface{}{"files": files, "observed": text, "declared_descriptor": w.Want}
+			}
+		}
+		if len(bad) > 0 {
+			run.Violation("C10:json-view:type_use_annotations", "`frugal -gen json`: every use of a type is its own descriptor (an annotated use carries exactly its own annotations, an un-annotated use of the same base type none): "+strings.Join(bad, " || "), wit)
+		}
 		sort.Slice(jres, func(a, b int) bool { return jres[a].i < jres[b].i })
 		for _, r := range jres {
 			run.Add("json_descriptor_cross_checks", 1)
